@@ -144,8 +144,8 @@ theorem singleRate_nonneg (line : Int) : 0 ≤ valOr0 (singleRate T Z line) := b
   split_ifs at hv with h
   injection hv with hv; rw [← hv]; have := h.2.2; norm_num at this; exact this
 
-/-- two-member groups (L-alpha, the IUPAC doublets): rate-weighted mean of the two members, plain mean of the
-available energies when no rates exist, error when neither member has an energy -/
+/-- two-member groups (L-alpha, the IUPAC doublets): rate-weighted mean over the members that have an energy, plain mean of
+the available energies when no rates exist, error when neither member has an energy -/
 theorem composed_spec (f : Nat) (l1 l2 : Int) (h1 : Plain l1) (h2 : Plain l2) :
     Meets (Gen.LineEnergyComposed_fuel (f + 2) T Z l1 l2 error) error (composed T Z l1 l2) := by
   rw [Gen.LineEnergyComposed_fuel]
@@ -156,7 +156,8 @@ theorem composed_spec (f : Nat) (l1 l2 : Int) (h1 : Plain l1) (h2 : Plain l2) :
   have r2 := meets_null (rad_rate_spec T Z Slot.null hn l2) (by rw [radRate_plain T Z l2 ⟨h2.1, h2.2.1, h2.2.2.1, h2.2.2.2.1⟩]; exact singleRate_ne_any T Z l2)
   rw [radRate_plain T Z l1 ⟨h1.1, h1.2.1, h1.2.2.1, h1.2.2.2.1⟩] at r1
   rw [radRate_plain T Z l2 ⟨h2.1, h2.2.1, h2.2.2.1, h2.2.2.2.1⟩] at r2
-  simp only [e1, e2, r1, r2, bind_ok, pure_eq_ok, composed, ddiv, setErr_notFull he]
+  simp only [e1, e2, r1, r2, bind_ok, pure_eq_ok, composed, wmean, List.foldl, ddiv, setErr_notFull he]
+  beta_reduce
   have a1 := singleEnergy_nonneg T Z l1
   have a2 := singleEnergy_nonneg T Z l2
   have b1 := singleRate_nonneg T Z l1
@@ -166,20 +167,42 @@ theorem composed_spec (f : Nat) (l1 l2 : Int) (h1 : Plain l1) (h2 : Plain l2) :
   generalize valOr0 (singleRate T Z l1) = y1 at *
   generalize valOr0 (singleRate T Z l2) = y2 at *
   norm_num
-  by_cases c1 : 0 < x1 * y1 + x2 * y2
-  · have : y1 + y2 ≠ 0 := by
-      intro h0
-      have hy1 : y1 = 0 := by linarith
-      have hy2 : y2 = 0 := by linarith
-      rw [hy1, hy2] at c1; norm_num at c1
-    simp [c1, this, Meets, Returns]
-  · simp only [c1, if_false]
-    by_cases c2 : 0 < x1 + x2
-    · have : ((if 0 < x1 then (1:ℝ) else 0) + if 0 < x2 then (1:ℝ) else 0) ≠ 0 := by
-        by_cases p1 : 0 < x1 <;> by_cases p2 : 0 < x2 <;> simp [p1, p2] <;> linarith
-      simp [c2, this, Meets, Returns]
-    · simp only [c2, if_false, Meets]
+  by_cases p1 : x1 ≤ 0
+  · have z1 : x1 = 0 := le_antisymm p1 a1
+    subst z1
+    by_cases p2 : x2 ≤ 0
+    · have z2 : x2 = 0 := le_antisymm p2 a2
+      subst z2
+      simp [Meets]
       xrl_finish
+    · have q2 : 0 < x2 := not_le.mp p2
+      rcases b2.lt_or_eq with hy | hy
+      · have : 0 < x2 * y2 := mul_pos q2 hy
+        simp [p2, q2, hy, hy.ne', this, Meets, Returns]
+      · subst hy
+        simp [p2, q2, Meets, Returns]
+  · have q1 : 0 < x1 := not_le.mp p1
+    by_cases p2 : x2 ≤ 0
+    · have z2 : x2 = 0 := le_antisymm p2 a2
+      subst z2
+      rcases b1.lt_or_eq with hy | hy
+      · have : 0 < x1 * y1 := mul_pos q1 hy
+        simp [p1, q1, hy, hy.ne', this, Meets, Returns]
+      · subst hy
+        simp [p1, q1, Meets, Returns]
+    · have q2 : 0 < x2 := not_le.mp p2
+      have hs : 0 < x1 + x2 := by linarith
+      rcases (add_nonneg b1 b2).lt_or_eq with hy | hy
+      · have hrv : 0 < x1 * y1 + x2 * y2 := by
+          rcases b1.lt_or_eq with g | g
+          · have := mul_pos q1 g; have := mul_nonneg q2.le b2; linarith
+          · have g2 : 0 < y2 := by linarith
+            have := mul_pos q2 g2; have := mul_nonneg q1.le b1; linarith
+        simp [p1, p2, q1, q2, hy, hy.ne', hrv, Meets, Returns]
+      · have hy1 : y1 = 0 := by linarith
+        have hy2 : y2 = 0 := by linarith
+        subst hy1; subst hy2
+        simp [p1, p2, q1, q2, hs, Meets, Returns]
 
 
 omit he in
@@ -191,7 +214,45 @@ omit he in
 theorem lineSlot_macro (j : Nat) : lineSlot (-((j : Nat) : Int) - 1) = j := by
   unfold lineSlot; omega
 
-/-- K-alpha energy: rate-weighted mean over the K→L lines that have an energy -/
+/-- one iteration of the K-alpha / K-beta accumulation loop of fluor_lines.c: a member without an energy is skipped; otherwise
+`tmp += lE·rr`, `tmp1 += rr`, `tmp3 += lE`, `tmp4 += 1` -/
+noncomputable def wmeanStep (e r : Nat → ℝ) (st : ℝ × ℝ × ℝ × ℝ × ℝ × ℝ) (k : Nat) : M (ℝ × ℝ × ℝ × ℝ × ℝ × ℝ) :=
+  if e k ≤ 0 then Except.ok (e k, r k, st.2.2)
+  else Except.ok (e k, r k, st.2.2.1 + e k * r k, st.2.2.2.1 + r k, st.2.2.2.2.1 + e k, st.2.2.2.2.2 + 1)
+
+omit he in
+/-- the accumulation loop as four folds -/
+theorem wmean_loop6 (e r : Nat → ℝ) (ks : List Nat) (l0 r0 t t1 t3 t4 : ℝ) :
+    ∃ a b, ks.foldlM (wmeanStep e r) (l0, r0, t, t1, t3, t4)
+      = Except.ok (a, b, ks.foldl (fun acc k => if e k ≤ 0 then acc else acc + e k * r k) t,
+          ks.foldl (fun acc k => if e k ≤ 0 then acc else acc + r k) t1,
+          ks.foldl (fun acc k => if e k ≤ 0 then acc else acc + e k) t3,
+          ks.foldl (fun acc k => if e k ≤ 0 then acc else acc + 1) t4) := by
+  induction ks generalizing l0 r0 t t1 t3 t4 with
+  | nil => exact ⟨l0, r0, rfl⟩
+  | cons k ks ih =>
+    simp only [List.foldlM_cons, List.foldl_cons, wmeanStep]
+    by_cases h : e k ≤ 0
+    · simp only [h, if_true, bind_ok]
+      exact ih _ _ _ _ _ _
+    · simp only [h, if_false, bind_ok]
+      exact ih _ _ _ _ _ _
+
+omit he in
+/-- what the code does with the four sums: weighted mean, else plain mean, else the error — `wmean` -/
+theorem wmean_finish (den num sum cnt : ℝ) :
+    Meets (if 0 < den then (if den = 0 then Except.error (Abort.nf "div0") else Except.ok (num / den)) >>= fun q => Except.ok (q, error)
+           else if 0 < cnt then (if cnt = 0 then Except.error (Abort.nf "div0") else Except.ok (sum / cnt)) >>= fun q => Except.ok (q, error)
+           else Except.ok ((0 : ℝ), error.withErr ⟨1, "Invalid line for this atomic number"⟩) : M (ℝ × Slot)) error
+      (if 0 < den then .value (num / den) else if 0 < cnt then .value (sum / cnt) else .fails) := by
+  by_cases hd : 0 < den
+  · simp [hd, hd.ne', Meets, Returns]
+  · by_cases hc : 0 < cnt
+    · simp [hd, hc, hc.ne', Meets, Returns]
+    · simp only [hd, hc, if_false, Meets]
+      exact fails_mk (by decide) (by decide)
+
+/-- K-alpha energy: rate-weighted mean over the K→L lines that have an energy, their plain mean when no rates exist -/
 theorem ka_energy_spec (f : Nat) (hZ' : 1 ≤ Z ∧ Z ≤ 120) :
     Meets (Gen.LineEnergy_fuel (f + 1) T Z 0 error) error (wmean Hdr.group_KA (eCell T Z) (rCell T Z)) := by
   have hZ : ¬ (Z < 1 ∨ 120 < Z) := by omega
@@ -199,37 +260,30 @@ theorem ka_energy_spec (f : Nat) (hZ' : 1 ≤ Z ∧ Z ≤ 120) :
   rw [Gen.LineEnergy_fuel]
   simp only [loopM_unroll, setErr_notFull he, ddiv]
   norm_num [hZ]
-  rw [foldlM_congr_mem (g := fun (st : ℝ × ℝ × ℝ × ℝ) (k : Nat) =>
-        (if T.LineEnergy_arr Z.toNat k ≤ 0 then Except.ok (T.LineEnergy_arr Z.toNat k, T.RadRate_arr Z.toNat k, st.2.2.1, st.2.2.2)
-         else Except.ok (T.LineEnergy_arr Z.toNat k, T.RadRate_arr Z.toNat k, st.2.2.1 + T.LineEnergy_arr Z.toNat k * T.RadRate_arr Z.toNat k, st.2.2.2 + T.RadRate_arr Z.toNat k) : M (ℝ × ℝ × ℝ × ℝ)))]
-  · obtain ⟨a, b, hw⟩ := wmean_loop (fun k => T.LineEnergy_arr Z.toNat k) (fun k => T.RadRate_arr Z.toNat k) (List.range (Int.toNat 3)) 0 0 0 0
+  rw [foldlM_congr_mem (g := wmeanStep (fun k => T.LineEnergy_arr Z.toNat k) (fun k => T.RadRate_arr Z.toNat k))]
+  · obtain ⟨a, b, hw⟩ := wmean_loop6 (fun k => T.LineEnergy_arr Z.toNat k) (fun k => T.RadRate_arr Z.toNat k) (List.range (Int.toNat 3)) 0 0 0 0 0 0
     rw [hw]
     unfold wmean
     rw [group_KA_eq]
     rw [foldl_macros (G := fun acc k => if T.LineEnergy_arr Z.toNat k ≤ 0 then acc else acc + T.RadRate_arr Z.toNat k),
-      foldl_macros (G := fun acc k => if T.LineEnergy_arr Z.toNat k ≤ 0 then acc else acc + T.LineEnergy_arr Z.toNat k * T.RadRate_arr Z.toNat k)]
+      foldl_macros (G := fun acc k => if T.LineEnergy_arr Z.toNat k ≤ 0 then acc else acc + T.LineEnergy_arr Z.toNat k * T.RadRate_arr Z.toNat k),
+      foldl_macros (G := fun acc k => if T.LineEnergy_arr Z.toNat k ≤ 0 then acc else acc + T.LineEnergy_arr Z.toNat k),
+      foldl_macros (G := fun acc k => if T.LineEnergy_arr Z.toNat k ≤ 0 then acc else acc + 1)]
     · simp only [bind_ok, show Int.toNat 3 = 3 from rfl]
       norm_num
-      generalize List.foldl (fun acc k => if T.LineEnergy_arr Z.toNat k ≤ 0 then acc else acc + T.RadRate_arr Z.toNat k) 0 (List.range 3) = den
-      generalize List.foldl (fun acc k => if T.LineEnergy_arr Z.toNat k ≤ 0 then acc else acc + T.LineEnergy_arr Z.toNat k * T.RadRate_arr Z.toNat k) 0 (List.range 3) = num
-      by_cases hd : 0 < den
-      · simp [hd, hd.ne', Meets, Returns]
-      · simp [hd, Meets]
-        xrl_finish
-    · intro acc k hk
-      simp only [eCell, rCell, lineSlot_macro, Nat.zero_add]
-      norm_num
-    · intro acc k hk
+      exact wmean_finish error _ _ _ _
+    all_goals
+      intro acc k hk
       simp only [eCell, rCell, lineSlot_macro, Nat.zero_add]
       norm_num
   · intro k hk s
     have : k < 3 := by simpa using hk
     have hk' : (k:Int) < 383 := by omega
-    simp [rd2, hb, hk']
+    simp [rd2, hb, hk', wmeanStep]
 
 
-/-- K-beta energy: rate-weighted mean over the K→M…P lines that have an energy; the rate-only group slots
-`KO`, `KP` carry the energy of their first member `KO1`, `KP1` -/
+/-- K-beta energy: rate-weighted mean over the K→M…P lines that have an energy (their plain mean when no rates exist); the
+rate-only group slots `KO`, `KP` carry the energy of their first member `KO1`, `KP1` -/
 theorem kb_energy_spec (f : Nat) (hZ' : 1 ≤ Z ∧ Z ≤ 120) :
     Meets (Gen.LineEnergy_fuel (f + 1) T Z 1 error) error (wmean Hdr.group_KB (kEnergy T Z) (rCell T Z)) := by
   have hZ : ¬ (Z < 1 ∨ 120 < Z) := by omega
@@ -240,32 +294,20 @@ theorem kb_energy_spec (f : Nat) (hZ' : 1 ≤ Z ∧ Z ≤ 120) :
   let e : Nat → ℝ := fun k => if k = 12 then T.LineEnergy_arr Z.toNat 16 else if k = 20 then T.LineEnergy_arr Z.toNat 24
     else T.LineEnergy_arr Z.toNat (3 + k)
   let r : Nat → ℝ := fun k => T.RadRate_arr Z.toNat (3 + k)
-  rw [foldlM_congr_mem (g := fun (st : ℝ × ℝ × ℝ × ℝ) (k : Nat) =>
-        (if e k ≤ 0 then Except.ok (e k, r k, st.2.2.1, st.2.2.2)
-         else Except.ok (e k, r k, st.2.2.1 + e k * r k, st.2.2.2 + r k) : M (ℝ × ℝ × ℝ × ℝ)))]
-  · obtain ⟨a, b, hw⟩ := wmean_loop e r (List.range (Int.toNat 26)) 0 0 0 0
+  rw [foldlM_congr_mem (g := wmeanStep e r)]
+  · obtain ⟨a, b, hw⟩ := wmean_loop6 e r (List.range (Int.toNat 26)) 0 0 0 0 0 0
     rw [hw]
     unfold wmean
     rw [group_KB_eq]
     rw [foldl_macros (G := fun acc k => if e k ≤ 0 then acc else acc + r k),
-      foldl_macros (G := fun acc k => if e k ≤ 0 then acc else acc + e k * r k)]
+      foldl_macros (G := fun acc k => if e k ≤ 0 then acc else acc + e k * r k),
+      foldl_macros (G := fun acc k => if e k ≤ 0 then acc else acc + e k),
+      foldl_macros (G := fun acc k => if e k ≤ 0 then acc else acc + 1)]
     · simp only [bind_ok, show Int.toNat 26 = 26 from rfl]
       norm_num
-      generalize List.foldl (fun acc k => if e k ≤ 0 then acc else acc + r k) 0 (List.range 26) = den
-      generalize List.foldl (fun acc k => if e k ≤ 0 then acc else acc + e k * r k) 0 (List.range 26) = num
-      by_cases hd : 0 < den
-      · simp [hd, hd.ne', Meets, Returns]
-      · simp [hd, Meets]
-        xrl_finish
-    · intro acc k hk
-      simp only [kEnergy, eCell, rCell, lineSlot_macro, Hdr.KO_LINE, Hdr.KP_LINE, Hdr.KO1_LINE, Hdr.KP1_LINE, e, r]
-      have e1 : (-((3 + k : Nat) : Int) - 1 = -16) ↔ k = 12 := by omega
-      have e2 : (-((3 + k : Nat) : Int) - 1 = -24) ↔ k = 20 := by omega
-      have s1 : lineSlot (-17) = 16 := by decide
-      have s2 : lineSlot (-25) = 24 := by decide
-      simp only [e1, e2, s1, s2]
-      norm_num
-    · intro acc k hk
+      exact wmean_finish error _ _ _ _
+    all_goals
+      intro acc k hk
       simp only [kEnergy, eCell, rCell, lineSlot_macro, Hdr.KO_LINE, Hdr.KP_LINE, Hdr.KO1_LINE, Hdr.KP1_LINE, e, r]
       have e1 : (-((3 + k : Nat) : Int) - 1 = -16) ↔ k = 12 := by omega
       have e2 : (-((3 + k : Nat) : Int) - 1 = -24) ↔ k = 20 := by omega
@@ -279,7 +321,7 @@ theorem kb_energy_spec (f : Nat) (hZ' : 1 ≤ Z ∧ Z ≤ 120) :
     have t1 : ((3:Int) + (k:Int)).toNat = 3 + k := by omega
     have c1 : ((3:Int) + (k:Int) = 15) ↔ k = 12 := by omega
     have c2 : ((3:Int) + (k:Int) = 23) ↔ k = 20 := by omega
-    simp [rd2, hb, hk', t1, c1, c2, e, r]
+    simp [rd2, hb, hk', t1, c1, c2, e, r, wmeanStep]
     have h0 : (0:Int) ≤ 3 + (k:Int) := by omega
     simp only [h0, if_true, bind_ok]
     by_cases k12 : k = 12
@@ -394,23 +436,75 @@ theorem wmean_fold_bounds (ms : List Int) (e r : Int → ℝ) (L U : ℝ) (hr : 
       constructor <;> nlinarith [h0.1, h0.2]
 
 omit he in
-/-- a rate-weighted group mean lies between the smallest and the largest energy of the members that have one
-(for non-negative rates — part of the data invariant) -/
+theorem plain_fold_bounds (ms : List Int) (e : Int → ℝ) (L U : ℝ)
+    (hL : ∀ m ∈ ms, 0 < e m → L ≤ e m) (hU : ∀ m ∈ ms, 0 < e m → e m ≤ U) (s0 c0 : ℝ)
+    (h0 : L * c0 ≤ s0 ∧ s0 ≤ U * c0) :
+    L * ms.foldl (fun acc m => if e m ≤ 0 then acc else acc + 1) c0 ≤
+        ms.foldl (fun acc m => if e m ≤ 0 then acc else acc + e m) s0 ∧
+      ms.foldl (fun acc m => if e m ≤ 0 then acc else acc + e m) s0 ≤
+        U * ms.foldl (fun acc m => if e m ≤ 0 then acc else acc + 1) c0 := by
+  induction ms generalizing s0 c0 with
+  | nil => simpa using h0
+  | cons m ms ih =>
+    simp only [List.foldl_cons]
+    apply ih (fun x hx => hL x (List.mem_cons_of_mem _ hx)) (fun x hx => hU x (List.mem_cons_of_mem _ hx))
+    by_cases hm : e m ≤ 0
+    · simpa [hm] using h0
+    · simp only [hm, if_false]
+      have hpos : 0 < e m := not_le.mp hm
+      have h1 := hL m (List.mem_cons_self ..) hpos
+      have h2 := hU m (List.mem_cons_self ..) hpos
+      constructor <;> nlinarith [h0.1, h0.2]
+
+omit he in
+/-- **a group mean lies between the smallest and the largest energy of the members that have one**: the rate-weighted mean for
+non-negative rates (part of the data invariant, `Spec.ratesNonnegAt`), and the plain mean of the fallback -/
 theorem group_energy_between (ms : List Int) (e r : Int → ℝ) (v L U : ℝ) (hr : ∀ m ∈ ms, 0 ≤ r m)
     (hL : ∀ m ∈ ms, 0 < e m → L ≤ e m) (hU : ∀ m ∈ ms, 0 < e m → e m ≤ U)
     (hv : wmean ms e r = .value v) : L ≤ v ∧ v ≤ U := by
   unfold wmean at hv
   simp only [] at hv
-  split_ifs at hv with hd
-  injection hv with hv
-  have hb := wmean_fold_bounds ms e r L U hr hL hU 0 0 (by norm_num)
-  norm_num at hd hv hb
-  rw [← hv]
-  constructor
-  · rw [le_div_iff₀ hd]; exact hb.1
-  · rw [div_le_iff₀ hd]; exact hb.2
+  split_ifs at hv with hd hc
+  · injection hv with hv
+    have hb := wmean_fold_bounds ms e r L U hr hL hU 0 0 (by norm_num)
+    norm_num at hd hv hb
+    rw [← hv]
+    constructor
+    · rw [le_div_iff₀ hd]; exact hb.1
+    · rw [div_le_iff₀ hd]; exact hb.2
+  · injection hv with hv
+    have hb := plain_fold_bounds ms e L U hL hU 0 0 (by norm_num)
+    norm_num at hc hv hb
+    rw [← hv]
+    constructor
+    · rw [le_div_iff₀ hc]; exact hb.1
+    · rw [div_le_iff₀ hc]; exact hb.2
+
+omit he in
+theorem foldl_skip_all (ms : List Int) (e : Int → ℝ) (g : ℝ → Int → ℝ) (hskip : ∀ m ∈ ms, e m ≤ 0) (a : ℝ) :
+    ms.foldl (fun acc m => if e m ≤ (0.0 : ℝ) then acc else g acc m) a = a := by
+  induction ms generalizing a with
+  | nil => rfl
+  | cons m ms ih =>
+    have h0 : e m ≤ (0.0 : ℝ) := by have := hskip m (List.mem_cons_self ..); norm_num; exact this
+    simp only [List.foldl_cons, h0, if_true]
+    exact ih (fun x hx => hskip x (List.mem_cons_of_mem _ hx)) a
+
+omit he in
+/-- a group that has a mean has a member with an energy -/
+theorem group_has_member (ms : List Int) (e r : Int → ℝ) (v : ℝ) (hv : wmean ms e r = .value v) : ∃ m ∈ ms, 0 < e m := by
+  by_contra hne
+  have hskip : ∀ m ∈ ms, e m ≤ 0 := fun m hm => not_lt.1 (fun h => hne ⟨m, hm, h⟩)
+  unfold wmean at hv
+  simp only [foldl_skip_all ms e (fun acc m => acc + r m) hskip, foldl_skip_all ms e (fun acc m => acc + (1.0 : ℝ)) hskip,
+    lt_irrefl, if_false] at hv
+  cases hv
 
 example : wmean [(-1 : Int), -2] (fun m => if m = -1 then (2:ℝ) else 4) (fun _ => (1:ℝ)) = .value 3 := by
+  norm_num [wmean, List.foldl]
+
+/-- no rates: the plain mean of the members that have an energy (the middle one has none) -/
+example : wmean [(-1 : Int), -2, -3] (fun m => if m = -1 then (2:ℝ) else if m = -2 then 0 else 4) (fun _ => (0:ℝ)) = .value 3 := by
   norm_num [wmean, List.foldl]
 
 end C10
